@@ -184,15 +184,15 @@ func main() {
 		beginPhase(0.40)
 		plainPhase(logs)
 		phaseDone("plain")
-		beginPhase(0.50)
+		beginPhase(0.48)
 		bigPhase()
 		phaseDone("big")
 		// 4. repairWalFile
-		beginPhase(0.60)
+		beginPhase(0.62)
 		repairPhase(fileLogs, true)
 		phaseDone("repair")
 		// 5. real BaseWAL on a real group: rotation and SearchForEndHeight
-		beginPhase(0.80)
+		beginPhase(0.81)
 		groupWritePhase(logs, fileLen)
 		phaseDone("group-write")
 		// 6. corrupted logs read through a real group
@@ -208,7 +208,7 @@ func main() {
 	r.Set("rule", fmt.Sprintf("every log of 1..%d records over a %d-token alphabet (EndHeight{0,1,maxint64}, timeoutInfo{zero,max}, EventDataRoundState{zero,max}, "+
 		"msgInfo{Proposal,BlockPart,Vote}x{minimal valid,max fields}) plus one log with a 64 KiB block part, encoded by the real WALEncoder; per log EVERY truncation offset, EVERY single-bit flip, "+
 		"each record's length field := {0,1,len-1,len+1,max,max+1,2^32-1}, crc field := {0,crc(empty),ffffffff,IEEE crc}, 8 garbage suffixes; each read back by the real WALDecoder "+
-		"(strict until the first error, then skipping corruption errors to end-of-log); logs of <=%d records additionally through repairWalFile (all corruptions, each three ways: into a fresh file; IN PLACE exactly as ConsensusState.OnStart does — corrupted log is <dir>/wal, kos.CopyFile to <dir>/wal.CORRUPTED, repair back over the existing longer <dir>/wal; over a pre-existing destination with unrelated longer content — the result must be byte-exactly the longest valid prefix and read back cleanly to end-of-log) and through a real autofile.Group "+
+		"(strict until the first error, then skipping corruption errors to end-of-log); logs of <=%d records additionally through repairWalFile (all corruptions in place, one flip per byte plus all other corruptions for the two other destinations; three ways: into a fresh file; IN PLACE exactly as ConsensusState.OnStart does — corrupted log is <dir>/wal, kos.CopyFile to <dir>/wal.CORRUPTED, repair back over the existing longer <dir>/wal; over a pre-existing destination with unrelated longer content — the result must be byte-exactly the longest valid prefix and read back cleanly to end-of-log) and through a real autofile.Group "+
 		"laid out with every rotation pattern class (truncations, one flip per byte, all field/garbage cases) with SearchForEndHeight for every written height and one unwritten; "+
 		"every log is also written through a real BaseWAL with the group's head-size check run after each write for every limit at/around each record boundary, read back, searched for "+
 		"every written and 6 unwritten heights with both search options, restarted and checked again. evaluations = corrupted logs decoded; "+
